@@ -13,7 +13,6 @@ import (
 	"context"
 	"encoding/json"
 	"fmt"
-	mrand "math/rand"
 	"strconv"
 	"testing/synctest"
 	"time"
@@ -21,10 +20,12 @@ import (
 	"golang.org/x/net/http2"
 	"google.golang.org/grpc"
 	"google.golang.org/grpc/balancer"
+	"google.golang.org/grpc/codes"
 	"google.golang.org/grpc/connectivity"
 	"google.golang.org/grpc/internal"
 	"google.golang.org/grpc/resolver"
 	"google.golang.org/grpc/serviceconfig"
+	"google.golang.org/grpc/status"
 
 	"google.golang.org/grpc/internal/zzverif/core"
 	"google.golang.org/grpc/internal/zzverif/simnet"
@@ -161,12 +162,12 @@ var lbCur *lbExt
 func init() {
 	balancer.Register(lbBuilder{})
 	lbParseServiceConfigs()
-	// The first policy retry of a process draws its backoff jitter from
-	// math/rand's global generator, which is created lazily (godebug lookup,
-	// sync.Map): do that here, outside any run, so that it costs the same
-	// number of scheduling points in every process. The values themselves
-	// come from the runtime's generator, which the simulator seeds per run.
-	_ = mrand.Float64()
+	// "max retries exhausted" wraps a status error; status.FromError on a
+	// wrapped status clones the Status proto, and the first proto.Clone of a
+	// process initialises protobuf's reflection tables lazily. Do that here,
+	// outside any run, so that it costs no scheduling points in whichever
+	// run happens to retry first.
+	status.FromError(fmt.Errorf("warm-up: %w", status.Error(codes.Unavailable, "warm-up")))
 	RegisterExt("lb", func(raw json.RawMessage) (Ext, error) {
 		x := &lbExt{}
 		var err error
